@@ -243,12 +243,61 @@ def _cmp_hops(res, func, H, dist, best, tol=0.0):
                 res['fails'].append((func, 'edge-count', {'i': i, 'j': j, 'hops': float(H[i, j]), 'dist': float(dist[i, j])})); return
 
 
+def exact_tie(A, transform):
+    """Does the graph have, for some ordered pair, two different walks of exactly equal minimum length in exact
+    arithmetic (two simple paths, or — with zero-length connections — a cycle of total length 0)?  ('log': lengths -ln w, so compare products of the rational weights; otherwise sums of the decimal
+    lengths.)  Only such ties can be decided differently by float rounding, which scopes known finding
+    C12-retrieve-float-rounding; computed lazily for failing inexact-float cases (n <= 10)."""
+    from fractions import Fraction as Fr
+    A = np.asarray(A, dtype=float); n = len(A)
+    W = [[Fr(str(float(A[i, j]))).limit_denominator(10 ** 6) for j in range(n)] for i in range(n)]
+    islog = transform == 'log'
+    if islog:
+        # a cycle of zero-length connections (weights exactly 1) makes every walk through it tie with infinitely many longer walks
+        Z = (A == 1)
+        reach = Z.copy()
+        for k in range(n):
+            reach = reach | (reach[:, [k]] & reach[[k], :])
+        if np.any(np.diag(reach)):
+            return True
+    for s0 in range(n):
+        best = {}      # target -> (value, count)
+        def better(a, b):
+            return a > b if islog else a < b
+        stack = [(s0, Fr(1) if islog else Fr(0), 1 << s0)]
+        while stack:
+            u, val, seen = stack.pop()
+            for v in range(n):
+                if W[u][v] == 0 or (seen >> v) & 1:
+                    continue
+                nv = val * W[u][v] if islog else val + W[u][v]
+                b = best.get(v)
+                if b is None or better(nv, b[0]):
+                    best[v] = (nv, 1)
+                elif nv == b[0]:
+                    best[v] = (nv, b[1] + 1)
+                else:
+                    continue           # a prefix of a minimum-length path has minimum length itself: prune
+                stack.append((v, nv, seen | (1 << v)))
+        if any(c > 1 for _, c in best.values()):
+            return True
+    return False
+
+
+def _float_cond(exact, A, transform, cache):
+    if exact:
+        return {'inexact_floats': False, 'exact_tie': False}
+    if 'tie' not in cache:
+        cache['tie'] = bool(exact_tie(A, transform))
+    return {'inexact_floats': True, 'exact_tie': cache['tie']}
+
+
 def _floyd_block(bct, res, case, A, transform, Lm, oracle, best, tol, exact, rout=True):
     """distance_wei_floyd + retrieve_shortest_path for every (s,t) + rout_efficiency on adjacency/weights A.
     Lm = the true length matrix, oracle = closure, best = exact-k table"""
     n = len(A)
     name = 'distance_wei_floyd' + ('' if transform is None else ':' + transform)
-    st, out = call(bct.distance_wei_floyd, np.array(A, dtype=float), transform, t=5)
+    st, out = call(bct.distance_wei_floyd, _rep(A, case, allow_int=transform is None), transform, t=5)
     if not _status(res, name, st, out, case):
         return
     SPL, hops, Pmat = out
@@ -257,6 +306,7 @@ def _floyd_block(bct, res, case, A, transform, Lm, oracle, best, tol, exact, rou
     _cmp_hops(res, name, hops, oracle, best, tol)
     paths = []
     npaths = 0
+    tie_cache = {}
     for s in range(n):
         for t in range(n):
             st2, p = call(bct.retrieve_shortest_path, s, t, hops, Pmat, t=3)
@@ -281,7 +331,7 @@ def _floyd_block(bct, res, case, A, transform, Lm, oracle, best, tol, exact, rou
             unreachable = math.isinf(oracle[s, t])
             if (len(plist) == 0) != unreachable:
                 res['fails'].append(('retrieve_shortest_path', 'empty-iff-unreachable', {'s': s, 't': t, 'transform': transform, 'path': plist, 'dist': fstr(oracle[s, t]),
-                                                                                         'cond': {'inexact_floats': not exact}}))
+                                                                                         'cond': _float_cond(exact, A, transform, tie_cache)}))
             elif plist:
                 npaths += 1
                 bad = check_path(plist, s, t, Lm, hops[s, t], SPL[s, t], tol)
@@ -290,10 +340,15 @@ def _floyd_block(bct, res, case, A, transform, Lm, oracle, best, tol, exact, rou
                 if bad:
                     res['fails'].append(('retrieve_shortest_path', bad, {'s': s, 't': t, 'transform': transform, 'path': plist,
                                                                            'hops': float(hops[s, t]), 'SPL': fstr(SPL[s, t]),
-                                                                           'cond': {'inexact_floats': not exact}}))
+                                                                           'cond': _float_cond(exact, A, transform, tie_cache)}))
     res['stats']['paths_checked'] = res['stats'].get('paths_checked', 0) + npaths
+    if rout:
+        _charpath_block(bct, res, case, SPL, oracle, name, lean=exact and transform is not None)
     if exact:
-        line = 'floyd n=%d A=%s transform=%s' % (n, mstr(A), transform or 'none')
+        if transform == 'log':      # exact only when every weight is 1: all lengths are 0; the model gets the length matrix
+            line = 'floydlen n=%d L=%s' % (n, mstr(Lm))
+        else:
+            line = 'floyd n=%d A=%s transform=%s' % (n, mstr(A), transform or 'none')
         spec = [('SPL', 'exact', mstr(SPL)), ('hops', 'exact', istr(hops)), ('P', 'exact', istr(Pmat))]
         if all(p is not None for p in paths):
             spec.append(('paths', 'exact', ';'.join(pstr(p) for p in paths) or '-'))
@@ -309,34 +364,66 @@ def _floyd_block(bct, res, case, A, transform, Lm, oracle, best, tol, exact, rou
             if not close(float(GE), want):
                 zero = bool(np.any(oracle[offdiag(n)] == 0))     # a zero distance between distinct nodes (log transform of weight 1)
                 res['fails'].append((rname, 'mean-inverse', {'GErout': float(GE), 'oracle': want, 'cond': {'zero_distance': zero, 'transform': transform or 'none'}}))
-            if exact:
+            if exact and transform != 'log':
                 res['lines'].append(('rout n=%d A=%s transform=%s' % (n, mstr(A), transform or 'none'),
                                      [('GE', 'tol', float(GE)), ('Erout', 'tolmat', [float(x) for x in np.asarray(Erout, dtype=float).ravel()])]))
 
 
-def _charpath_block(bct, res, case, D, oracle, fname):
-    n = len(D)
-    if n < 2:
+def _rep(A, case, allow_int=True):
+    """representation axis: the same matrix as float64 / int64 / bool, C / Fortran order / transposed view"""
+    dt, order = case.get('rep', ('float64', 'C'))
+    X = np.array(A, dtype=float)
+    if dt != 'float64' and allow_int and np.all(X == np.round(X)) and (dt != 'bool' or np.all((X == 0) | (X == 1))):
+        X = X.astype(dt)
+    if order == 'F':
+        X = np.asfortranarray(X)
+    elif order == 'T':
+        X = np.ascontiguousarray(X.T).T          # a transposed view of a C array
+    return X
+
+
+def _mean_oracle(vals):
+    """plain mean and mean inverse of a list of floats with NumPy's conventions (inf in the mean, 1/0 = inf, 1/inf = 0)"""
+    if len(vals) == 0:
+        return float('nan'), float('nan')
+    m = float('inf') if any(math.isinf(x) for x in vals) else sum(vals) / len(vals)
+    if any(x == 0 for x in vals):
+        e = float('inf')
+    else:
+        e = sum(0.0 if math.isinf(x) else 1.0 / x for x in vals) / len(vals)
+    return m, e
+
+
+def _charpath_block(bct, res, case, D, oracle, fname, lean=True):
+    """charpath on the matrix D produced by routine `fname`, all four flag combinations; the oracle is the plain mean /
+    mean inverse of the selected cells *by position* (off-diagonal cells, or all cells) of that very matrix.
+    (Whether D itself is the distance matrix is judged by the caller.)"""
+    D = np.asarray(D, dtype=float); n = len(D)
+    if n < 2 or D.shape != (n, n):
         return
-    for incinf in (True, False):
-        st, out = call(bct.charpath, np.array(D, dtype=float), False, incinf, t=3)
-        if not _status(res, 'charpath', st, out, case):
-            continue
-        lam, eff = float(out[0]), float(out[1])
-        vals = np.asarray(D, dtype=float)[offdiag(n)]      # D itself is compared with the oracle by the caller
-        if not incinf:
-            vals = vals[np.isfinite(vals)]
-        if len(vals) == 0:
-            wl, we = float('nan'), float('nan')
-        else:
-            wl = float(np.sum(vals) / len(vals))
-            we = float(sum(0.0 if math.isinf(x) else 1.0 / x for x in vals) / len(vals))
-        if not close(lam, wl):
-            res['fails'].append(('charpath', 'mean', {'of': fname, 'include_infinite': incinf, 'lambda': lam, 'oracle': wl}))
-        if not close(eff, we):
-            res['fails'].append(('charpath', 'mean-inverse', {'of': fname, 'include_infinite': incinf, 'efficiency': eff, 'oracle': we}))
-        res['lines'].append(('charpath n=%d D=%s diag=0 inf=%d' % (n, mstr(D), int(incinf)),
-                             [('lambda', 'tol', lam), ('eff', 'tol', eff)]))
+    for incdiag in (False, True):
+        for incinf in (True, False):
+            Din = _rep(D, case, allow_int=False)
+            D0 = Din.copy()
+            st, out = call(bct.charpath, Din, incdiag, incinf, t=3)
+            if not _status(res, 'charpath', st, out, case):
+                continue
+            if not np.array_equal(Din, D0, equal_nan=True):
+                res['fails'].append(('charpath', 'input-modified', {'of': fname}))
+            lam, eff = float(out[0]), float(out[1])
+            vals = [float(D[i, j]) for i in range(n) for j in range(n) if incdiag or i != j]
+            if not incinf:
+                vals = [x for x in vals if not math.isinf(x)]
+            wl, we = _mean_oracle(vals)
+            info = {'of': fname, 'include_diagonal': incdiag, 'include_infinite': incinf, 'D': mstr(D)}
+            if not close(lam, wl):
+                res['fails'].append(('charpath', 'mean', dict(info, **{'lambda': lam, 'oracle': wl})))
+            if not close(eff, we):
+                res['fails'].append(('charpath', 'mean-inverse', dict(info, efficiency=eff, oracle=we)))
+            res['stats']['charpath_calls:' + fname.split(':')[0]] = res['stats'].get('charpath_calls:' + fname.split(':')[0], 0) + 1
+            if lean:
+                res['lines'].append(('charpath n=%d D=%s diag=%d inf=%d' % (n, mstr(D), int(incdiag), int(incinf)),
+                                     [('lambda', 'tol', lam), ('eff', 'tol', eff)]))
 
 
 def run_case(case):
@@ -376,21 +463,21 @@ def _run_bin(bct, case, res):
     res['stats']['multihop'] = int(np.any(np.isfinite(oracle) & (oracle >= 2)))
     Aline = mstr(A)
     outs = {}
-    st, out = call(bct.distance_bin, A.copy(), t=5)
+    st, out = call(bct.distance_bin, _rep(A, case), t=5)
     if _status(res, 'distance_bin', st, out, case):
         outs['distance_bin'] = np.asarray(out, dtype=float)
         _cmp_dist(res, 'distance_bin', out, oracle)
-    st, out = call(bct.breadthdist, A.copy(), t=5)
+    st, out = call(bct.breadthdist, _rep(A, case), t=5)
     if _status(res, 'breadthdist', st, out, case):
         R, D = out; outs['breadthdist'] = (np.asarray(R), np.asarray(D, dtype=float))
         _cmp_dist(res, 'breadthdist', D, oracle, diag_zero=False)
         _cmp_flag(res, 'breadthdist', R, D, oracle)
-    st, out = call(bct.reachdist, A.copy(), t=5)
+    st, out = call(bct.reachdist, _rep(A, case, allow_int=False), t=5)      # float only: it stores inf into a copy of its argument
     if _status(res, 'reachdist', st, out, case):
         R, D = out; outs['reachdist'] = (np.asarray(R), np.asarray(D, dtype=float))
         _cmp_dist(res, 'reachdist', D, oracle, diag_zero=False)
         _cmp_flag(res, 'reachdist', R, D, oracle)
-    st, out = call(bct.distance_wei, A.copy(), t=5)
+    st, out = call(bct.distance_wei, _rep(A, case), t=5)
     if _status(res, 'distance_wei', st, out, case):
         D, B = out; outs['distance_wei'] = (np.asarray(D, dtype=float), np.asarray(B, dtype=float))
         _cmp_dist(res, 'distance_wei', D, oracle)
@@ -423,14 +510,16 @@ def _run_bin(bct, case, res):
                 res['fails'].append(('breadth', 'min-length', {'source': s, 'out': mstr(dd), 'oracle': mstr(want)}))
             res['lines'].append(('breadth n=%d A=%s s=%d' % (n, Aline, s), [('dist', 'exact', mstr(dist)), ('branch', 'exact', istr(branch))]))
     if n >= 2:
-        st, out = call(bct.efficiency_bin, A.copy(), t=5)
+        st, out = call(bct.efficiency_bin, _rep(A, case), t=5)
         if _status(res, 'efficiency_bin', st, out, case):
             want = meaninv_offdiag(oracle)
             if not close(float(out), want):
                 res['fails'].append(('efficiency_bin', 'mean-inverse', {'E': float(out), 'oracle': want}))
             res['lines'].append(('effbin n=%d A=%s' % (n, Aline), [('E', 'tol', float(out))]))
-        if 'distance_bin' in outs:
-            _charpath_block(bct, res, case, outs['distance_bin'], oracle, 'distance_bin')
+        for nm in ('distance_bin', 'breadthdist', 'reachdist', 'distance_wei'):
+            if nm in outs:
+                Dn = outs[nm] if nm == 'distance_bin' else outs[nm][1] if nm in ('breadthdist', 'reachdist') else outs[nm][0]
+                _charpath_block(bct, res, case, Dn, oracle, nm, lean=(nm != 'distance_wei'))
     if not np.array_equal(A, A0):
         res['fails'].append(('distance', 'input-modified', {}))
 
@@ -513,7 +602,7 @@ def _run_wei(bct, case, res):
             ties += int(np.any(np.isfinite(oracle) & (best[k1] == oracle) & (best[k2] == oracle) & offdiag(n)))
     res['stats']['ties'] = int(ties > 0)
     only = case.get('only') == 'floyd'
-    st, out = ('skip', None) if only else call(bct.distance_wei, Lm0.copy(), t=5)
+    st, out = ('skip', None) if only else call(bct.distance_wei, _rep(Lm0, case), t=5)
     if not only and _status(res, 'distance_wei', st, out, case):
         D, B = out
         _cmp_dist(res, 'distance_wei', D, oracle)
@@ -556,7 +645,9 @@ def _run_log(bct, case, res):
         if _status(res, 'distance_wei', st, out, case):
             _cmp_dist(res, 'distance_wei', out[0], oracle, TOL)
             _cmp_hops(res, 'distance_wei', np.asarray(out[1]), oracle, best, TOL)
-    _floyd_block(bct, res, case, W, tr, Lm, oracle, best, TOL, False, rout=not only)
+    allone = tr == 'log' and bool(np.all((W == 0) | (W == 1)))      # lengths all 0: float arithmetic is exact
+    res['stats']['log_weight_one'] = int(tr == 'log' and bool(np.any(W == 1)))
+    _floyd_block(bct, res, case, W, tr, Lm, oracle, best, 0.0 if allone else TOL, allone, rout=not only)
 
 
 def _run_nav(bct, case, res):
@@ -770,6 +861,25 @@ def gen_dist_cases(rs, tier):
         if rs.rand() < .5:
             W = W * (rs.randint(1, 9, size=W.shape) / 8.0) if directed else W   # weights k/8·2^-j in (0,1]
         add('log', W, gen='rand-log')
+    # 'log' with weights exactly 1 (zero-length connections): binary matrices, mixtures {1, 1/2, 1/4}, matrices normalised by
+    # their maximum; chains / trees among them have unique paths, hence no exact tie (known finding cannot mask them)
+    for _ in range(nr // 2):
+        n = int(rs.randint(3, 9)); directed = bool(rs.rand() < .6)
+        kind = rs.randint(4)
+        if kind == 0:
+            W = (rand_len_graph(rs, n, float(rs.choice([.25, .5])), directed, [1]) != 0).astype(float)          # binary + 'log'
+        elif kind == 1:
+            W = structured(rs, n, directed, [1])                                                                    # chains/cycles of weight 1
+        elif kind == 2:
+            A = rand_len_graph(rs, n, float(rs.choice([.3, .5])), directed, [1, 2, 4])
+            W = np.zeros_like(A); W[A != 0] = 1.0 / A[A != 0]                                                        # mixtures 1, 1/2, 1/4
+        else:
+            A = rand_len_graph(rs, n, float(rs.choice([.3, .5])), directed, [1, 2, 3, 5, 7])
+            W = A / A.max() if A.max() > 0 else A                                                                    # normalised by the maximum
+        add('log', W, gen='log-weight-one')
+    for A in ([[0, 1, 0], [0, 0, 1], [0, 0, 0]], [[0, 1, 0, 0], [0, 0, .5, 0], [0, 0, 0, 1], [0, 0, 0, 0]],
+              [[0, 1, 1], [1, 0, 1], [1, 1, 0]]):
+        add('log', A, gen='log-weight-one-fixed')
     # --- inexact float lengths (decimal k/10, no transform): oracle by tolerance only
     for _ in range(nr):
         n = int(rs.randint(4, 10)); directed = bool(rs.rand() < .7)
@@ -795,6 +905,14 @@ def gen_dist_cases(rs, tier):
                 if rs.rand() < .5:
                     A[i, i] = rs.choice([1, 2, 3])
             add('bad', A, what='self-loops')
+    # representation axis for a third of the binary / integer-length cases: dtype, memory order; scale (exact power of two)
+    for c in cases:
+        if c['kind'] in ('bin', 'wei') and rs.rand() < .35:
+            dts = ['float64', 'int64', 'bool'] if c['kind'] == 'bin' else ['float64', 'int64']
+            c['rep'] = (dts[rs.randint(len(dts))], ['C', 'F', 'T'][rs.randint(3)])
+        if c['kind'] == 'wei' and rs.rand() < .15:
+            k = float(2.0 ** int(rs.choice([-3, 3, 10])))
+            c['A'] = (np.asarray(c['A'], dtype=float) * k).tolist(); c['scale'] = k
     return cases
 
 
@@ -884,6 +1002,10 @@ def absorb(ck, cases, results, funcs=None):
     """fold the per-case results into the Check: coverage counters and violations (restricted to `funcs` if given)"""
     for c, r in zip(cases, results):
         ck.count('kind:' + c['kind']); ck.count('n=%d' % (sum(c['lollipop']) if c.get('lollipop') else len(c['A']))); ck.count('gen:' + c.get('gen', '-'))
+        if c.get('rep'):
+            ck.count('rep:%s/%s' % tuple(c['rep']))
+        if c.get('scale'):
+            ck.count('scaled')
         for k, v in r['stats'].items():
             if v:
                 ck.count(k, v)
